@@ -265,8 +265,8 @@ func init() {
 		}()
 		select {
 		case <-finished:
-		case <-time.After(10 * time.Second):
-			queueDeadlocked = fmt.Sprintf("deadlock: after 10 s only %d of %d additions had completed while %d readers were taking snapshots", atomic.LoadInt64(&done), n, readers)
+		case <-time.After(30 * time.Second):
+			queueDeadlocked = fmt.Sprintf("deadlock: after 30 s only %d of %d additions had completed while %d readers were taking snapshots", atomic.LoadInt64(&done), n, readers)
 			return &Obs{Line: "deadlock", Data: o, Panic: queueDeadlocked, NoModel: true}
 		}
 		final := q.GetMessages()
@@ -360,8 +360,8 @@ func init() {
 		}()
 		select {
 		case <-finished:
-		case <-time.After(20 * time.Second):
-			queueDeadlocked = fmt.Sprintf("deadlock: after 20 s only %d additions had completed while %d readers were taking snapshots", atomic.LoadInt64(&done), readers)
+		case <-time.After(40 * time.Second):
+			queueDeadlocked = fmt.Sprintf("deadlock: after 40 s only %d additions had completed while %d readers were taking snapshots", atomic.LoadInt64(&done), readers)
 			return &Obs{Line: "deadlock", Data: o, Panic: queueDeadlocked, NoModel: true}
 		}
 		for _, m := range q.GetMessages() {
